@@ -12,11 +12,17 @@ import (
 )
 
 type Slicer struct {
-	m        *Module
-	MaxCall  int // interprocedural depth (callee returns / caller arguments)
-	callers  map[*ssa.Function][]ssa.CallInstruction
-	closures map[*ssa.Function][]*ssa.MakeClosure
-	pkgs     []string
+	m         *Module
+	MaxCall   int // interprocedural depth (callee returns / caller arguments)
+	callers   map[*ssa.Function][]ssa.CallInstruction
+	closures  map[*ssa.Function][]*ssa.MakeClosure
+	pkgs      []string
+	fns       []*ssa.Function // every function of pkgs
+	sessDepth int
+	rootDepth int
+	// Stop, when set, ends the walk at values it accepts (they are part of the slice, what they are
+	// computed from is not): e.g. a hash, whose inputs are not "read" by what uses the digest.
+	Stop func(v ssa.Value) bool
 }
 
 // NewSlicer indexes call sites and closure creations in the given own packages.
@@ -24,6 +30,7 @@ func NewSlicer(m *Module, pkgs ...string) *Slicer {
 	s := &Slicer{m: m, MaxCall: 3, callers: map[*ssa.Function][]ssa.CallInstruction{}, closures: map[*ssa.Function][]*ssa.MakeClosure{}, pkgs: pkgs}
 	for _, p := range pkgs {
 		for _, fn := range m.PkgFuncs(p) {
+			s.fns = append(s.fns, fn)
 			for _, in := range instrsOf(fn) {
 				if mc, ok := in.(*ssa.MakeClosure); ok {
 					f := mc.Fn.(*ssa.Function)
@@ -247,6 +254,19 @@ func (s *Slicer) Slice(v ssa.Value) map[ssa.Value]bool {
 	return st.seen
 }
 
+// SliceIn: the backward slice of v, a value of the function called at `call`, for that call only: the
+// function's parameters map back to the arguments of `call`, not to those of its other callers.
+func (s *Slicer) SliceIn(v ssa.Value, call ssa.CallInstruction) map[ssa.Value]bool {
+	st := &sliceState{seen: map[ssa.Value]bool{}, visited: map[sliceKey]int{}, parent: map[ssa.Value]ssa.Value{}}
+	LastTrace = st.parent
+	g := call.Common().StaticCallee()
+	if g == nil {
+		return s.Slice(v)
+	}
+	s.walk(st, v, 0, &callCtx{call: call, callee: g})
+	return st.seen
+}
+
 func (s *Slicer) walk(st *sliceState, v ssa.Value, depth int, ctx *callCtx) {
 	if v == nil {
 		return
@@ -265,6 +285,9 @@ func (s *Slicer) walk(st *sliceState, v ssa.Value, depth int, ctx *callCtx) {
 	}
 	st.stack = append(st.stack, v)
 	defer func() { st.stack = st.stack[:len(st.stack)-1] }()
+	if s.Stop != nil && s.Stop(v) {
+		return
+	}
 	s.walkMutators(st, v, depth, ctx)
 	switch x := v.(type) {
 	case *ssa.Const, *ssa.Global, *ssa.Function, *ssa.Builtin:
@@ -470,6 +493,18 @@ func (s *Slicer) walkLoad(st *sliceState, ld *ssa.UnOp, depth int, ctx *callCtx)
 		for _, sto := range fieldStores(ld.Parent(), a.X, f) {
 			s.walk(st, sto.Val, depth, ctx)
 		}
+		// a field of a session object — unexported, set only by the composite literals that build such
+		// objects — read in another function than the one that built it: what those literals gave it
+		if !f.Exported() && fieldStoreCount[f] >= 1 && !fieldStoredLater[f] && depth < s.MaxCall {
+			for _, fn := range s.fns {
+				if fn == ld.Parent() {
+					continue
+				}
+				for _, sto := range storesToField([]*ssa.Function{fn}, f) {
+					s.walk(st, sto.Val, depth+1, nil)
+				}
+			}
+		}
 		// aliases: other loads of the same field of the same object may be handed to mutating calls
 		for _, in := range instrsOf(ld.Parent()) {
 			if o, ok := in.(*ssa.UnOp); ok && o != ld && o.Op == token.MUL {
@@ -480,6 +515,7 @@ func (s *Slicer) walkLoad(st *sliceState, ld *ssa.UnOp, depth int, ctx *callCtx)
 		}
 		s.walk(st, a.X, depth, ctx)
 	case *ssa.IndexAddr:
+		st.seen[a] = true
 		s.walk(st, a.X, depth, ctx)
 		s.walk(st, a.Index, depth, ctx)
 		// stores to elements of the same base
